@@ -33,7 +33,9 @@ def hostnames():
     hl = [inner, [D(3)], {'k': [D(4)]}]
     hd = {'k': [D(5), [D(6)]], 'j': {'z': [D(7)]}, 'n': D(8)}
     ht = [(D(1), [D(9)]), (D(2), {'q': [D(0)]})]
-    return {'hl': hl, 'hd': hd, 'ht': ht, 'el': [], 'ed': {}, 'hm': lambda f, n: [f(i) for i in range(int(n))], 'hid': lambda v: v, 'num': D(3), 's': 'txt'}
+    import threading
+    hw = {'lock': threading.Lock(), 'rows': [[D(1)], [D(2)]], 'gen': (i for i in range(3))}      # a host value with members deepcopy cannot handle
+    return {'hl': hl, 'hd': hd, 'ht': ht, 'hw': hw, 'hwl': [hl[0], threading.Lock()], 'el': [], 'ed': {}, 'hm': lambda f, n: [f(i) for i in range(int(n))], 'hid': lambda v: v, 'num': D(3), 's': 'txt'}
 
 
 LISTS = ['hl', 'hl[0]', 'hd["k"]', 'a', 'b', 'c', 'el']
@@ -41,8 +43,10 @@ DICTS = ['hd', 'hd["j"]', 'hl[2]', 'da', 'ed']
 RHS = ['hl', 'hd', 'ht', 'hl[0]', 'hd["k"]', 'hd["j"]', 'hl[2]', 'a', 'b', 'c', 'da', '[hl, hl]', '[a, hl[0]]', '{"q": hl}', '{"q": hd["k"], "r": a}', 'items(hd)', 'enumerate(hl)',
        'values(hd)', 'keys(hd)', 'sorted(hl, v => str(v))', 'map(hl, v => v)', 'filter(hl, v => True)', 'get(hd, "k")', 'get(hd, "zz", hl)', 'reversed(hl)', 'hl + [hl[0]]',
        'hl[0:2]', 'hl[::-1]', 'hid(hl)', 'hm(v => hl[0], 2)', 'hid(hd)["k"]', 'ht[0]', 'ht[1][1]', 'max(hl[0], hl[1])', 'hl[0] if True else a', 'a and hl', 'el or hl', 'num', 's',
+       'hl - [hl[1]]', 'hl - el', 'hl * 1', 'a - b', '(hl + hl) - [hl[0]]', 'hl / 1', 'hl ** 1', '-hl', 'hl - hl[1:]', 'hl[0] - [1]',
+       'hw', 'hw["rows"]', 'hwl', '[hw, hl]', 'hid(hw)',
        '[[1], [2]]', 'list(hl, hd)', 'dict(hd)', 'hd | items | sorted', 'enumerate(ht)', 'rand(hl)', 'shuffle(hl)', 'reduce(hl, (x, y) => x)', 'x2']
-LRHS = ['hl', 'hl[0]', 'hd["k"]', 'a', 'b', '[hl[0]]', '[hl, hd]', 'values(hd)', 'items(hd)', 'enumerate(hl)', 'map(hl, v => v)', 'hid(hl)', 'ht', '[[1]]', 'sorted(hl, v => str(v))', 'reversed(hl)']
+LRHS = ['hwl', 'hw["rows"]', 'hl - [hl[1]]', 'hl', 'hl[0]', 'hd["k"]', 'a', 'b', '[hl[0]]', '[hl, hd]', 'values(hd)', 'items(hd)', 'enumerate(hl)', 'map(hl, v => v)', 'hid(hl)', 'ht', '[[1]]', 'sorted(hl, v => str(v))', 'reversed(hl)']
 KEY_L = ['0', '1', '-1', 'len(%s)', '2']
 KEY_D = ['"k"', '"new"', '"j"', '1', 'None']
 
